@@ -566,17 +566,13 @@ impl<W: Write> RdbWriter<W> {
                 self.write_byte(RdbOpcode::ZSet as u8)?;
                 self.write_string(key)?;
                 
-                // Get all items and write them
-                let len = skiplist.len();
-                self.write_length(len)?;
-                
                 #[cfg(ferrous_verif)]
                 crate::verif::sync_point("rdb_zset_after_len");
                 
-                // Note: This is a suboptimal approach since we need to materialize
-                // all members in memory. A better approach would be to have a streaming
-                // iterator in the SkipList implementation.
-                let items = skiplist.range_by_rank(0, len - 1).items;
+                // Materialize the members first: the length that is written is the number of
+                // members that follow, whatever happens to the set meanwhile
+                let items = skiplist.get_all_items();
+                self.write_length(items.len())?;
                 
                 for (member, score) in items {
                     self.write_string(&member)?;
